@@ -404,6 +404,31 @@ theorem mapLoop_ok (f : α → Except Err β) (xs : List α) (fail : Option Err)
         subst h
         simp [Src.mapLoop, hx, ih ys' hxs]
 
+
+theorem mapLoop_err (f : α → Except Err β) (xs : List α) (fail : Option Err) (e : Err)
+    (h : xs.mapM f = .error e) : (Src.mapLoop f xs fail).2 = some e := by
+  induction xs with
+  | nil => simp [pure, Except.pure] at h
+  | cons x xs ih =>
+    simp only [List.mapM_cons, bind, Except.bind] at h
+    rcases hx : f x with e' | y
+    · simp only [hx, Except.error.injEq] at h; subst h; simp [Src.mapLoop, hx]
+    · simp only [hx] at h
+      rcases hxs : xs.mapM f with e' | ys'
+      · simp only [hxs, Except.error.injEq] at h; subst h
+        simp [Src.mapLoop, hx, ih hxs]
+      · simp [hxs, pure, Except.pure] at h
+
+/-- Map with a mapper that can fail = `mapM`: all mapped values and the source's own end, or the mapper's
+first error (the values before it are still delivered, see `Src.mapLoop`). -/
+theorem C04x_mapE (s : Src α) (f : α → Except Err β) :
+    (∀ ys, s.elems.mapM f = .ok ys → (s.mapE f).elems = ys ∧ (s.mapE f).fail = s.fail) ∧
+    (∀ e, s.elems.mapM f = .error e → (s.mapE f).fail = some e) ∧
+    (s.mapE f).openErr = s.openErr := by
+  refine ⟨fun ys h => ?_, fun e h => ?_, rfl⟩
+  · simp [Src.mapE, mapLoop_ok f s.elems s.fail ys h]
+  · simp [Src.mapE, mapLoop_err f s.elems s.fail e h]
+
 /-- Peek, Untyped, Map, Filter, MapWhileFiltering (pure functions), Limit / Skip / Page, FlatMap (inner streams
 that do not fail) on the delivered list: the list functions. -/
 theorem C04x_thin_ops (s : Src α) (f : α → β) (p : α → Bool) (w : α → Option β) [Inhabited β]
@@ -869,6 +894,31 @@ theorem C04x_iterator (s : Src α) (j : Option Nat) :
       · simp only [hle, if_false] at h2
         subst h2
         cases s.fail <;> simp [hle]
+
+
+/-- where an arbitrary (stateful) loop body stops: the index of the first element at which `yield` returns
+false, threading the body's state through the elements before it -/
+def stopIndex {σ : Type} (yield : σ → α → σ × Bool) : List α → σ → Option Nat
+  | [], _ => none
+  | x :: xs, st => if (yield st x).2 then (stopIndex yield xs (yield st x).1).map (· + 1) else some 0
+
+/-- **Iterator, any loop body**: `yield` is called on the delivered elements in order, exactly up to and
+including the first one for which it returns false (never again afterwards); the stream's error is reached
+(and panics) only if the body never broke. -/
+theorem C04x_iterator_general {σ : Type} (yield : σ → α → σ × Bool) (xs : List α) (fail : Option Err) (st : σ) :
+    Src.iterFirst yield xs fail st =
+      (match stopIndex yield xs st with
+       | none => (xs.foldl (fun s x => (yield s x).1) st,
+                  match fail with | some e => .error e | none => .ok none)
+       | some j => ((xs.take (j + 1)).foldl (fun s x => (yield s x).1) st, .ok xs[j]?)) := by
+  induction xs generalizing st with
+  | nil => simp only [Src.iterFirst, stopIndex, List.foldl_nil]; cases fail <;> rfl
+  | cons x xs ih =>
+    simp only [Src.iterFirst, stopIndex]
+    by_cases hy : (yield st x).2 = true
+    · simp only [hy, if_true, ih]
+      cases stopIndex yield xs (yield st x).1 <;> simp
+    · simp [hy]
 
 /-- IndexedIterator: the same prefix, numbered 0, 1, 2, … -/
 theorem C04x_indexedIterator (s : Src α) (j : Option Nat) (h : s.openErr = none) :
